@@ -118,6 +118,9 @@ Model/WebIdeDocs.vos Model/WebIdeDocs.vok Model/WebIdeDocs.required_vos: Model/W
 Proofs/C02Proofs.vo Proofs/C02Proofs.glob Proofs/C02Proofs.v.beautified Proofs/C02Proofs.required_vo: Proofs/C02Proofs.v Model/StCore.vo Model/StTyping.vo Model/StRef.vo
 Proofs/C02Proofs.vio: Proofs/C02Proofs.v Model/StCore.vio Model/StTyping.vio Model/StRef.vio
 Proofs/C02Proofs.vos Proofs/C02Proofs.vok Proofs/C02Proofs.required_vos: Proofs/C02Proofs.v Model/StCore.vos Model/StTyping.vos Model/StRef.vos
+Proofs/C02Refine.vo Proofs/C02Refine.glob Proofs/C02Refine.v.beautified Proofs/C02Refine.required_vo: Proofs/C02Refine.v Model/StCore.vo Model/StTyping.vo Model/StRef.vo Proofs/StProofs.vo
+Proofs/C02Refine.vio: Proofs/C02Refine.v Model/StCore.vio Model/StTyping.vio Model/StRef.vio Proofs/StProofs.vio
+Proofs/C02Refine.vos Proofs/C02Refine.vok Proofs/C02Refine.required_vos: Proofs/C02Refine.v Model/StCore.vos Model/StTyping.vos Model/StRef.vos Proofs/StProofs.vos
 Proofs/C04Proofs.vo Proofs/C04Proofs.glob Proofs/C04Proofs.v.beautified Proofs/C04Proofs.required_vo: Proofs/C04Proofs.v Model/Fb.vo Spec/C04.vo
 Proofs/C04Proofs.vio: Proofs/C04Proofs.v Model/Fb.vio Spec/C04.vio
 Proofs/C04Proofs.vos Proofs/C04Proofs.vok Proofs/C04Proofs.required_vos: Proofs/C04Proofs.v Model/Fb.vos Spec/C04.vos
@@ -178,9 +181,9 @@ Proofs/StProofs.vos Proofs/StProofs.vok Proofs/StProofs.required_vos: Proofs/StP
 Properties/C01.vo Properties/C01.glob Properties/C01.v.beautified Properties/C01.required_vo: Properties/C01.v Model/StCore.vo Model/StTyping.vo Proofs/StProofs.vo
 Properties/C01.vio: Properties/C01.v Model/StCore.vio Model/StTyping.vio Proofs/StProofs.vio
 Properties/C01.vos Properties/C01.vok Properties/C01.required_vos: Properties/C01.v Model/StCore.vos Model/StTyping.vos Proofs/StProofs.vos
-Properties/C02.vo Properties/C02.glob Properties/C02.v.beautified Properties/C02.required_vo: Properties/C02.v Model/StCore.vo Model/StTyping.vo Model/StRef.vo Proofs/C02Proofs.vo
-Properties/C02.vio: Properties/C02.v Model/StCore.vio Model/StTyping.vio Model/StRef.vio Proofs/C02Proofs.vio
-Properties/C02.vos Properties/C02.vok Properties/C02.required_vos: Properties/C02.v Model/StCore.vos Model/StTyping.vos Model/StRef.vos Proofs/C02Proofs.vos
+Properties/C02.vo Properties/C02.glob Properties/C02.v.beautified Properties/C02.required_vo: Properties/C02.v Model/StCore.vo Model/StTyping.vo Model/StRef.vo Proofs/StProofs.vo Proofs/C02Proofs.vo Proofs/C02Refine.vo
+Properties/C02.vio: Properties/C02.v Model/StCore.vio Model/StTyping.vio Model/StRef.vio Proofs/StProofs.vio Proofs/C02Proofs.vio Proofs/C02Refine.vio
+Properties/C02.vos Properties/C02.vok Properties/C02.required_vos: Properties/C02.v Model/StCore.vos Model/StTyping.vos Model/StRef.vos Proofs/StProofs.vos Proofs/C02Proofs.vos Proofs/C02Refine.vos
 Properties/C03.vo Properties/C03.glob Properties/C03.v.beautified Properties/C03.required_vo: Properties/C03.v Model/StCore.vo Model/StTyping.vo Proofs/StProofs.vo
 Properties/C03.vio: Properties/C03.v Model/StCore.vio Model/StTyping.vio Proofs/StProofs.vio
 Properties/C03.vos Properties/C03.vok Properties/C03.required_vos: Properties/C03.v Model/StCore.vos Model/StTyping.vos Proofs/StProofs.vos
